@@ -24,9 +24,9 @@ Definition c_logical (lg : option (lop * cst * cst)) (b : blobm) : list bool :=
   | None => []
   end.
 Definition c_camli (camli : ctype) (b : blobm) : list bool := match camli with TNone => [] | t => [ctype_eqb (m_type b) t] end.
-Definition c_perm (perm : option (N * N)) (b : blobm) : list bool :=
+Definition c_perm (perm : option (N * pval)) (b : blobm) : list bool :=
   match perm with
-  | Some (a, v) => [ctype_eqb (m_type b) TPermanode && (N.eqb a 0 || (if N.eqb v 0 then true else memN v (avals b a)))]
+  | Some (a, v) => [ctype_eqb (m_type b) TPermanode && (N.eqb a 0 || pval_matches v (avals b a))]
   | None => [] end.
 Definition c_whole (whole : N) (b : blobm) : list bool :=
   if N.eqb whole 0 then [] else [ctype_eqb (m_type b) TFile && N.eqb (m_whole b) whole].
@@ -93,28 +93,20 @@ Definition logical_types (lg : option (lop * cst * cst)) : list N :=
   end.
 
 Lemma perm_types_unfold lg a ct ac p wh sz r pf :
-  perm_types (Node lg a ct ac p wh sz r pf) =
-  match p with
-  | Some (pa, pv) => if N.eqb pa attr_node_type && negb (N.eqb pv 0) then [pv] else logical_types lg
-  | None => logical_types lg
-  end.
-Proof.
-  destruct lg as [[[[] x] y]|], p as [[pa pv]|]; cbn [perm_types logical_types]; try reflexivity;
-    destruct (N.eqb pa attr_node_type && negb (N.eqb pv 0)); reflexivity.
-Qed.
+  perm_types (Node lg a ct ac p wh sz r pf) = match exact_type p with Some v => [v] | None => logical_types lg end.
+Proof. cbn [perm_types]. destruct (exact_type p); [reflexivity|]. destruct lg as [[[[] x] y]|]; reflexivity. Qed.
 
 Lemma perm_types_sound : forall c b, wf_blob b -> perm_types c <> [] -> matches c b = true -> typed_by (perm_types c) b = true.
 Proof.
-  assert (Hfield : forall (p : option (N * N)) pa pv b, wf_blob b -> p = Some (pa, pv) ->
-            N.eqb pa attr_node_type && negb (N.eqb pv 0) = true -> forallb (fun x => x) (c_perm p b) = true -> typed_by [pv] b = true).
-  { intros p pa pv b Hw -> Hc Hp. apply andb_true_iff in Hc as [Ha Hv]. apply N.eqb_eq in Ha. apply negb_true_iff in Hv.
-    cbn in Hp. rewrite andb_true_r in Hp. apply andb_true_iff in Hp as [_ Hp]. rewrite Hv in Hp. subst pa.
-    cbn in Hp. unfold typed_by. cbn. rewrite orb_false_r. apply Hw. exact Hp. }
+  assert (Hfield : forall (p : option (N * pval)) v b, wf_blob b -> exact_type p = Some v ->
+            forallb (fun x => x) (c_perm p b) = true -> typed_by [v] b = true).
+  { intros p v b Hw He Hp. unfold exact_type in He. destruct p as [[pa [|pv|vs]]|]; try discriminate.
+    destruct (N.eqb_spec pa attr_node_type) as [->|]; [|discriminate]. injection He as ->.
+    cbn in Hp. rewrite andb_true_r in Hp. apply andb_true_iff in Hp as [_ Hp].
+    unfold typed_by. cbn. rewrite orb_false_r. apply Hw. exact Hp. }
   induction c as [a ct ac p wh sz r pf|o x y a ct ac p wh sz r pf IHx IHy] using cst_ind'; intros b Hw Hne Hm;
     pose proof (matches_fields _ _ _ _ _ _ _ _ _ _ Hm) as (Hl & _ & _ & Hp & _); rewrite perm_types_unfold in Hne |- *.
-  - destruct p as [[pa pv]|]; [|exfalso; apply Hne; reflexivity].
-    destruct (N.eqb pa attr_node_type && negb (N.eqb pv 0)) eqn:E; [|exfalso; apply Hne; reflexivity].
-    eapply Hfield; eauto.
+  - destruct (exact_type p) as [v|] eqn:E; [|exfalso; apply Hne; reflexivity]. eapply Hfield; eauto.
   - assert (Hlog : logical_types (Some (o, x, y)) <> [] -> typed_by (logical_types (Some (o, x, y))) b = true).
     { clear Hne. intros Hne. destruct o; cbn [logical_types] in *; try (exfalso; apply Hne; reflexivity).
       - cbn in Hl. rewrite andb_true_r in Hl. apply andb_true_iff in Hl as [Hx Hy].
@@ -125,8 +117,7 @@ Proof.
         rewrite typed_by_app. apply orb_true_iff in Hl as [Hx|Hy].
         + rewrite IHx; [reflexivity|assumption|discriminate|assumption].
         + rewrite IHy; [apply orb_true_r|assumption|discriminate|assumption]. }
-    destruct p as [[pa pv]|]; [|apply Hlog; exact Hne].
-    destruct (N.eqb pa attr_node_type && negb (N.eqb pv 0)) eqn:E; [eapply Hfield; eauto|apply Hlog; exact Hne].
+    destruct (exact_type p) as [v|] eqn:E; [eapply Hfield; eauto|apply Hlog; exact Hne].
 Qed.
 
 (* ---- L3: matchesAtMostOneBlob ---- *)
@@ -462,16 +453,13 @@ Fixpoint perm_types_old (c : cst) : list N :=
                 | Some (OOr, x, y) => perm_types_old x ++ perm_types_old y
                 | _ => []
                 end in
-      match perm with
-      | Some (a, v) => if N.eqb a attr_node_type && negb (N.eqb v 0) then [v] else lg
-      | None => lg
-      end
+      match exact_type perm with Some v => [v] | None => lg end
   end.
 
 Definition d6_world : world :=
   [ {| m_ref := 1; m_type := TPermanode; m_size := 10; m_deleted := false; m_mtime := Some 5%Z; m_ctime := Some 5%Z; m_attrs := [(1, [7]); (2, [9])]; m_ntypes := [7]; m_whole := 0 |};
     {| m_ref := 2; m_type := TPermanode; m_size := 10; m_deleted := false; m_mtime := Some 7%Z; m_ctime := Some 7%Z; m_attrs := [(2, [8])]; m_ntypes := []; m_whole := 0 |} ]%N.
-Definition leaf_perm (a v : N) : cst := Node None false TNone false (Some (a, v)) 0 None 0 None.
+Definition leaf_perm (a v : N) : cst := Node None false TNone false (Some (a, PExact v)) 0 None 0 None.
 Definition d6_cst : cst :=
   Node (Some (OAnd, Node None false TPermanode false None 0 None 0 None,
                     Node (Some (OOr, leaf_perm 1 7, leaf_perm 2 8)) false TNone false None 0 None 0 None)) false TNone false None 0 None 0 None.
